@@ -23,6 +23,10 @@ pub struct Mismatch {
 pub fn compare(ast: &OpeningHoursExpression, oh: &OpeningHours, hol_spec: &HolSpec, days: &[NaiveDate], probe_state: bool, stats: Option<&mut Report>) -> Result<Option<Mismatch>, Abstain> {
     let hol_ctx = hol_spec.build();
     let hol = Holidays { public: hol_ctx.get_public(), school: hol_ctx.get_school() };
+    // abstention is per shape, not per day: probe the selectors on fixed leap / non-leap dates first
+    if let Some(a) = model::abstention(ast, &hol) {
+        return Err(a);
+    }
     let minutes = dates::interesting_minutes(ast);
     let mut nonconstant = false;
     let mut first_kinds: Option<Vec<RuleKind>> = None;
